@@ -24,6 +24,8 @@ import (
 //     <err>: "_" = no error, else hex of the error text ("-" = empty text)
 // result: ok <answers> <unwrapped length> <kind> <fields…> | enc-error | pack-error | unpack-error |
 //         dec-error <answers> <unwrapped length> | PANIC
+//   par <G> <iters> <op> { ; <op> }      the listed ops processed concurrently (c09_par.go): the downstream codec
+//                                        singletons, wrap.go and the serializers serve every session of the server
 
 var rrTypes = map[string]dnsmessage.Type{}
 
@@ -173,6 +175,23 @@ func (c dnsrespComp) Exec(op string) (string, string, string, bool) {
 
 func (dnsrespComp) run(op string, rec *[]string) (result, monitor, class string, nontrivial bool) {
 	t := strings.Fields(op)
+	if len(t) > 0 && t[0] == "par" {
+		G, iters, subs, ok := splitPar(t)
+		if !ok || rec != nil {
+			return "bad-op", "", "bad-op", false
+		}
+		for _, s := range subs {
+			if strings.HasPrefix(s, "par") {
+				return "bad-op", "", "bad-op", false
+			}
+		}
+		var c dnsrespComp
+		res, mon, allOK := runPar(func(op string) (string, string) {
+			r, m, _, _ := c.run(op, nil)
+			return r, m
+		}, G, iters, subs)
+		return res, mon, fmt.Sprintf("par/n%d", (len(subs)+3)/4*4), allOK
+	}
 	if len(t) < 6 {
 		return "bad-op", "", "bad-op", false
 	}
@@ -256,6 +275,11 @@ func (dnsrespComp) run(op string, rec *[]string) (result, monitor, class string,
 }
 
 func (c dnsrespComp) emitResp(emit func(string), letter, domain, rr, fields string) {
+	emit(c.mkResp(letter, domain, rr, fields))
+}
+
+// mkResp: the op line, with the codec look-up table of this very case where the model needs one
+func (c dnsrespComp) mkResp(letter, domain, rr, fields string) string {
 	op := fmt.Sprintf("%s %s %s - %s", letter, domain, rr, fields)
 	if oracleCodec(letter) {
 		rec := []string{}
@@ -265,7 +289,7 @@ func (c dnsrespComp) emitResp(emit func(string), letter, domain, rr, fields stri
 		}()
 		op = fmt.Sprintf("%s %s %s %s %s", letter, domain, rr, oracleToken(rec), fields)
 	}
-	emit(op)
+	return op
 }
 
 func btoi(b bool) int {
@@ -370,6 +394,8 @@ func (c dnsrespComp) Gen(r *Rand, tier string, emit func(string)) {
 	}
 	// (5) escaping x chunk boundaries (see boundarySweep)
 	c.boundarySweep(r, thorough, emit)
+	// (6) the same path for several responses at the same moment
+	c.genPar(r, thorough, emit)
 	// (4) random
 	n := 600
 	if thorough {
@@ -396,6 +422,96 @@ func (c dnsrespComp) Gen(r *Rand, tier string, emit func(string)) {
 			f = fmt.Sprintf("c _ %d 1 %d %s", r.Intn(65536), r.Intn(65536), hexs(stressBytes(r, r.Intn(1300), r.Intn(5))))
 		}
 		c.emitResp(emit, k, domain, rr, f)
+	}
+}
+
+// genPar: batches of responses processed concurrently (see c09_par.go).  Members differ in what shared state would
+// mix up: the user's numbers and payload (equal and different lengths), the codec, the record type, the response kind.
+func (c dnsrespComp) genPar(r *Rand, thorough bool, emit func(string)) {
+	G, iters, rounds := 24, 30, 1
+	if thorough {
+		G, iters, rounds = 48, 100, 4
+	}
+	// payload lengths that wrap, pack and unwrap for the record type (a failing member only repeats an error)
+	lenFor := func(rr string) int {
+		switch rr {
+		case "a":
+			return 3 * (1 + r.Intn(20))
+		case "aaaa":
+			return 14 * (1 + r.Intn(12))
+		case "srv":
+			return 1 + r.Intn(24)
+		case "cname", "mx":
+			return 1 + r.Intn(90)
+		}
+		return 1 + r.Intn(400)
+	}
+	packet := func(k, rr string, n int) string {
+		if k == "R" && (rr == "a" || rr == "aaaa") {
+			n -= 6 // the stream is 6 + n bytes: keep the last record full
+			if n < 0 {
+				n = 0
+			}
+		}
+		mode := r.Intn(2)
+		if k == "R" && (rr == "cname" || rr == "mx" || rr == "srv") {
+			return c.mkResp(k, "example.org", rr, fmt.Sprintf("c _ %d 1 %d %s", r.Intn(65536), r.Intn(65536), hexs([]byte(base36[:1+n%30]))))
+		}
+		return c.mkResp(k, "example.org", rr, fmt.Sprintf("c _ %d 1 %d %s", r.Intn(65536), r.Intn(65536), hexs(stressBytes(r, n, mode))))
+	}
+	other := func(k, rr string) string {
+		switch r.Intn(5) {
+		case 0:
+			return c.mkResp(k, "example.org", rr, fmt.Sprintf("v %d %d _", r.Next()&0xFFFFFFFF, r.Intn(1296)))
+		case 1:
+			return c.mkResp(k, "example.org", rr, "c "+hexs([]byte(commands.BadErrors[r.Intn(len(commands.BadErrors))].Error()))+" 0 0 0 -")
+		case 2:
+			return c.mkResp(k, "example.org", rr, "y _ "+hexs(util.DownloadCodecCheck))
+		case 3:
+			return c.mkResp(k, "example.org", rr, fmt.Sprintf("c _ %d 0 0 -", r.Intn(65536)))
+		}
+		return c.mkResp(k, "example.org", rr, "o _")
+	}
+	batch := func(ms []string) {
+		emit(fmt.Sprintf("par %d %d %s", G, iters, strings.Join(ms, " "+parSep+" ")))
+	}
+	for round := 0; round < rounds; round++ {
+		// one codec, one record type, several users
+		for i, k := range respCodecs {
+			rr := []string{"txt", "null", "cname", "mx", "priv", "txt", "txt"}[(i+round)%7]
+			for _, equal := range []bool{true, false} {
+				n := lenFor(rr)
+				var ms []string
+				for j := 0; j < 8; j++ {
+					if !equal {
+						n = lenFor(rr)
+					}
+					ms = append(ms, packet(k, rr, n))
+				}
+				if !equal {
+					ms[6] = ms[0]
+					ms[7] = other(k, rr)
+				}
+				batch(ms)
+			}
+		}
+		// everything mixed
+		for b := 0; b < 8; b++ {
+			var ms []string
+			for j := 0; j < 12; j++ {
+				k := respCodecs[(b+j)%len(respCodecs)]
+				rr := respRRs[(b*5+j)%len(respRRs)]
+				if b%4 == 3 && j%2 == 0 {
+					k = "V"
+				}
+				if j%4 == 3 {
+					ms = append(ms, other(k, rr))
+				} else {
+					ms = append(ms, packet(k, rr, lenFor(rr)))
+				}
+			}
+			batch(ms)
+		}
 	}
 }
 
